@@ -148,11 +148,22 @@ uint64_t vx_hash_str(uint64_t h, const char *s)
 
 static void lock(volatile int *l)
 {
-    while (__atomic_exchange_n(l, 1, __ATOMIC_ACQUIRE)) {
+    /* the lock word holds the pid of its owner so that the master can release a
+     * lock whose owner was killed inside the critical section */
+    const int me = (int)getpid();
+    int exp = 0;
+    while (!__atomic_compare_exchange_n(l, &exp, me, false, __ATOMIC_ACQUIRE, __ATOMIC_RELAXED)) {
         while (*l) {
             __builtin_ia32_pause();
         }
+        exp = 0;
     }
+}
+
+static void break_lock_of(volatile int *l, pid_t dead)
+{
+    int exp = (int)dead;
+    __atomic_compare_exchange_n(l, &exp, 0, false, __ATOMIC_ACQ_REL, __ATOMIC_RELAXED);
 }
 
 static void unlock(volatile int *l)
@@ -921,6 +932,8 @@ int vx_main(int argc, char **argv, const struct vx_harness *h)
                         break;
                     }
                 }
+                break_lock_of(&S->qlock, p);
+                break_lock_of(&S->vlock, p);
                 if (w < o_workers) {
                     struct wslot *ws = &S->w[w];
                     const bool recycle = WIFEXITED(status) && WEXITSTATUS(status) == VX_EXIT_RECYCLE;
@@ -970,7 +983,7 @@ int vx_main(int argc, char **argv, const struct vx_harness *h)
             const uint64_t t = now_ns();
             for (int w = 0; w < o_workers; w++) {
                 const uint64_t rs = S->w[w].run_start_ns;
-                if (rs > 1 && (double)(t - rs) / 1e9 > o_run_timeout) {
+                if (rs > 1 && t > rs && (double)(t - rs) / 1e9 > o_run_timeout) {
                     S->w[w].run_start_ns = 1;
                     kill(S->w[w].pid, SIGKILL);
                 }
